@@ -43,6 +43,9 @@ type World struct {
 	summary []string
 	states  []string
 
+	// ADDED notifications of the initial list that have not run yet (store already complete)
+	initialAdds [][]byte
+
 	// pending second half of a CNI operation: the kubelet reports the address after the plugin returned
 	cniPending *Pod
 
@@ -85,13 +88,27 @@ func newWorld(s *core.Sim, prop, tier string) *World {
 	for _, p := range w.cl.podList() {
 		w.mustCreate("pods", p.api())
 	}
-	// The policy informer is what galaxy starts first: the policies that exist when galaxy starts reach it as
-	// ADDED events (each runs AddPolicy), so they are created after the view is declared. Pods and namespaces
-	// are in the cache before any handler needs them (startPodInformerFactory waits for their first sync;
-	// AddPod does nothing).
-	w.K.Watch("pods", "namespaces", "networkpolicies")
-	for _, p := range w.cl.polList() {
-		w.mustCreate("networkpolicies", p.api())
+	// The policy informer is what galaxy starts first: the policies that exist when galaxy starts reach its
+	// handler as ADDED notifications (each runs AddPolicy). The informer fills its store from the initial list
+	// item by item while the (slow) handlers run behind it, so the lister may show anything between "the
+	// notified prefix" and "everything"; a run draws one of the two extremes. Pods and namespaces are in the
+	// cache before any handler needs them (startPodInformerFactory waits for their first sync; AddPod does
+	// nothing).
+	if c.Prob(1, 2) {
+		// store = notified prefix: the policies are created after the view is declared
+		w.K.Watch("pods", "namespaces", "networkpolicies")
+		for _, p := range w.cl.polList() {
+			w.mustCreate("networkpolicies", p.api())
+		}
+	} else {
+		// store complete before the first handler runs
+		for _, p := range w.cl.polList() {
+			w.mustCreate("networkpolicies", p.api())
+		}
+		w.K.Watch("pods", "namespaces", "networkpolicies")
+		for _, o := range w.K.List("networkpolicies", "") {
+			w.initialAdds = append(w.initialAdds, o.JSON)
+		}
 	}
 	w.foreign0 = foreignText(w.Kern)
 	w.Kern.OnEvent = w.onKernelEvent
@@ -305,6 +322,9 @@ func (w *World) Actions() []core.Action {
 	if w.firstSync {
 		return []core.Action{{Name: "initial-sync", Do: func() { w.firstSync = false; w.spawnSync("sync:initial") }}}
 	}
+	if len(w.initialAdds) > 0 {
+		return []core.Action{{Name: "initial-add", Do: w.initialAdd}}
+	}
 	if w.cniPending != nil {
 		// the kubelet writes the address into the pod status right after the CNI call returned
 		return []core.Action{{Name: "cni-status", Do: w.finishCNI}}
@@ -341,6 +361,16 @@ func (w *World) deliver(kind string) {
 	t := w.S.Spawn(fmt.Sprintf("%s:%s:%s", kind[:3], typ, ev.Key), w.proc, func() { eventTask(inst, kind, typ, oldJ, newJ) })
 	t.Tag = kind[:3]
 	w.S.Sig("E:" + kind[:3] + ":" + typ)
+}
+
+func (w *World) initialAdd() {
+	js := w.initialAdds[0]
+	w.initialAdds = w.initialAdds[1:]
+	inst := w.inst
+	w.handlers++
+	t := w.S.Spawn(fmt.Sprintf("net:ADDED:initial-%d", w.handlers), w.proc, func() { eventTask(inst, "networkpolicies", "ADDED", nil, js) })
+	t.Tag = "net"
+	w.S.Sig("E:net:ADDED")
 }
 
 func (w *World) spawnSync(name string) {
